@@ -112,11 +112,13 @@ Definition guard_tensor_ctor (dshape : vec) (shape : option vec) : res unit :=
 
 (* T.permute(order) *)
 Definition pre_tensor_permute (s order : vec) : bool := is_permb (ndim s) order.
+(* C19-N01 repaired: "sort(order) == arange(ndims)" before np.transpose; the "(order == 1).all()" shortcut is left for
+   1-way tensors only (A-28, known: order [1] on a 1-way tensor is answered) *)
 Definition guard_tensor_permute (s order : vec) : res unit :=
   chk (ndim s =? zlen order) ;;
   if zlen order =? 0 then Ok tt
-  else if forallb (fun x => x =? 1) order then Ok tt            (* "(order == 1).all()" shortcut *)
-  else chk (np_transpose_ok (ndim s) order).
+  else if (ndim s =? 1) && forallb (fun x => x =? 1) order then Ok tt
+  else chk (shape_eqb (np_sort order) (np_arange 0 (ndim s))) ;; chk (np_transpose_ok (ndim s) order).
 
 (* T.reshape(shape) *)
 Definition pre_tensor_reshape (s new : vec) : bool := zprod s =? zprod new.
@@ -238,14 +240,17 @@ Definition pre_tenmat_mul (a b : shp2) : bool := cols a =? rows b.
 Definition guard_tenmat_mul (a b : shp2) : res unit := chk (cols a =? rows b).
 
 (* T.scale(factor, dims): factor has the shape of the listed modes *)
-Definition pre_scale (s fshape d : vec) : bool := modes_ok (ndim s) d && shape_eqb fshape (pickz s d).
+(* dims is a SET of modes (tt_dimscheck sorts it; C02's spec of scale takes the sorted modes as well): the factor's k-th mode
+   belongs to the k-th smallest listed mode *)
+Definition pre_scale (s fshape d : vec) : bool := modes_ok (ndim s) d && shape_eqb fshape (pickz s (np_sort d)).
 (* T.collapse(dims) *)
 Definition pre_collapse (s d : vec) : bool := modes_ok (ndim s) d.
 (* T.ttt(U, selfdims, otherdims) *)
 Definition pre_ttt (s u sd od : vec) : bool :=
   modes_ok (ndim s) sd && modes_ok (ndim u) od && shape_eqb (pickz s sd) (pickz u od).
-(* linear index assignment T[k] = v *)
-Definition pre_linear_index (s : vec) (k : Z) : bool := in_range (zprod s) k.
+(* linear index T[k] / T[k] = v: Python's convention, -prod(shape) <= k < prod(shape) (pyttb_utils.tt_ind2sub: "Handle negative
+   indexing": a negative index counts from the end) *)
+Definition pre_linear_index (s : vec) (k : Z) : bool := (- zprod s <=? k) && (k <? zprod s).
 (* S.extract(subs) / sptensor(subs, vals, shape): every subscript row has one entry per mode, inside the shape *)
 Definition sub_ok (s row : vec) : bool := (zlen row =? ndim s) && forallb (fun p => in_range (snd p) (fst p)) (combine row s).
 Definition pre_subs (s : vec) (subs : list vec) : bool := forallb (sub_ok s) subs.
@@ -315,7 +320,8 @@ Definition pre_gcp_opt (s : vec) (rank : Z) (init : initk) (opt_ok : bool) : boo
   match init with
   | InitRandom => true
   | InitK ks R => shape_eqb ks s && (R =? rank)
-  | InitList ms => (zlen ms =? ndim s) && factors_fit s ms (np_full (ndim s) rank) (np_arange 0 (ndim s))
+  | InitList ms => (zlen ms =? ndim s) && (cols (shp2_d ms 0) =? rank) &&       (* the guess has `rank` components ... *)
+                   factors_fit s ms (np_full (ndim s) rank) (np_arange 0 (ndim s))  (* ... and factor n is shape[n] x rank *)
   | _ => false
   end.
 (* import_data: header says n modes, the shape line has k entries; data type word known *)
@@ -328,28 +334,35 @@ Definition guard_import (type_ok : bool) (n k : Z) : res unit := chk type_ok ;; 
 (* K.redistribute(mode): "mode not in range(ndims)" (C19-N07 repaired) *)
 Definition guard_mode (s : vec) (n : Z) : res unit := chk (in_range (ndim s) n).
 
-(* get_mttkrp_factors(U, n, ndims): list length, then "0 <= n < ndims" (C19-N08 / C19-N10 repaired) *)
-Definition guard_mttkrp_factors (N : Z) (us : list shp2) (n : Z) : res unit := chk (zlen us =? N) ;; chk (in_range N n).
+(* get_mttkrp_factors(U, n, ndims): list length, "0 <= n < ndims" (C19-N08 / C19-N10 repaired), then
+   "len({U[i].shape[1] for i != n}) > 1" (C19-N09 repaired): the matrices other than U[n] have one column count — once the
+   first two checks passed that is "every one has the column count of U[1] (U[0] when n <> 0)" *)
 Definition mttkrp_R (us : list shp2) (n : Z) : Z := cols (shp2_d us (if n =? 0 then 1 else 0)).
+Definition mttkrp_cols_ok (N : Z) (us : list shp2) (n : Z) : bool :=
+  forallb (fun iu => (fst iu =? n) || (cols (snd iu) =? mttkrp_R us n)) (combine (np_arange 0 N) us).
+Definition mttkrp_rows_ok (s : vec) (us : list shp2) (n : Z) : bool :=
+  forallb (fun iu => (fst iu =? n) || (rows (snd iu) =? sz s (fst iu))) (combine (np_arange 0 (ndim s)) us).
+Definition guard_mttkrp_factors (N : Z) (us : list shp2) (n : Z) : res unit :=
+  chk (zlen us =? N) ;; chk (in_range N n) ;; chk (mttkrp_cols_ok N us n).
 (* tensor.mttkrp: order >= 2, the helper, the per-matrix row loop, then the column agreement that khatrirao and the
    reshape to (szl, szn, R) / the matrix products enforce on every matrix except U[n] (which is never looked at) *)
 Definition guard_tensor_mttkrp (s : vec) (us : list shp2) (n : Z) : res unit :=
   let N := ndim s in
   chk (2 <=? N) ;; guard_mttkrp_factors N us n ;;
   chk_all (fun iu => chk ((fst iu =? n) || (rows (snd iu) =? sz s (fst iu)))) (combine (np_arange 0 N) us) ;;
-  chk (forallb (fun iu => (fst iu =? n) || (cols (snd iu) =? mttkrp_R us n)) (combine (np_arange 0 N) us)).
+  chk (mttkrp_cols_ok N us n).
 
 (* tensor.collapse(dims): an empty data array is answered before the modes are looked at; otherwise the generated helper decides *)
 Definition guard_tensor_collapse (s d : vec) : res unit :=
   if zprod s =? 0 then Ok tt
   else match tt_dimscheck (ndim s) None (Some d) None with Err => Err | Ok _ => Ok tt end.
 
-(* sptensor(subs, vals, shape) with subs a rectangular array: nothing is compared when subs.size == 0 (C19-N16); otherwise the
-   value count (C19-N05 repaired), "np.all(subs >= 0)" (C19-N14 repaired), the column count and the upper bounds
-   "max(subs)+1 <= shape" *)
+(* sptensor(subs, vals, shape) with subs a rectangular array: "vals.size == 0" when subs.size == 0 (C19-N16 repaired);
+   otherwise the value count (C19-N05 repaired), "np.all(subs >= 0)" (C19-N14 repaired), the column count and the upper
+   bounds "max(subs)+1 <= shape" *)
 Definition guard_sptensor_ctor (s : vec) (subs : list vec) (nvals : Z) : res unit :=
   let ncols := zlen (hd [] subs) in
-  if (zlen subs =? 0) || (ncols =? 0) then Ok tt
+  if (zlen subs =? 0) || (ncols =? 0) then chk (nvals =? 0)
   else chk (nvals =? zlen subs) ;; chk (forallb (forallb (fun x => 0 <=? x)) subs) ;; chk (ncols =? ndim s) ;;
        chk (forallb (fun row => forallb (fun p => fst p <? snd p) (combine row s)) subs).
 
@@ -390,7 +403,7 @@ Definition guard_ttensor_mttkrp (s : vec) (us : list shp2) (n : Z) : res unit :=
   guard_mttkrp_factors N us n ;;
   chk_all (fun iu => chk ((fst iu =? n) || (rows (snd iu) =? sz s (fst iu)))) (combine (np_arange 0 N) us) ;;
   chk (2 <=? N) ;;
-  chk (forallb (fun iu => (fst iu =? n) || (cols (snd iu) =? mttkrp_R us n)) (combine (np_arange 0 N) us)).
+  chk (mttkrp_cols_ok N us n).
 
 (* cp_apr: rank, then the initial guess (a Kruskal tensor of the right size, or "random"), then the algorithm name *)
 Definition guard_cp_apr (s : vec) (rank : Z) (init : initk) (alg_ok : bool) : res unit :=
@@ -481,7 +494,7 @@ Definition guard_nvecs (s : vec) (n : Z) : res unit :=
   end.
 
 (* tensor.scale(factor, dims): the generated tt_dimscheck sorts the modes; the factor's shape is compared with the sizes of the
-   SORTED modes *)
+   SORTED modes (and the sorted modes are the ones that are scaled) *)
 Definition guard_scale (s f d : vec) : res unit :=
   match tt_dimscheck (ndim s) None (Some d) None with
   | Err => Err
@@ -504,12 +517,15 @@ Definition guard_ttt (s u sd od : vec) : res unit :=
   guard_to_tenmat_opt s None (Some sd) ;; guard_to_tenmat_opt u (Some od) None ;;
   chk (zprod (pickz s sd) =? zprod (pickz u od)).
 
-(* T[k] / T[k] = v with one linear index k >= 0: numpy's bound test / "a tensor X cannot be resized" *)
-Definition guard_linear_index (s : vec) (k : Z) : res unit := chk (negb (zprod s <=? k)) ;; chk (np_idx_ok (zprod s) k).
+(* T[k] / T[k] = v with one linear index: "idx >= prod(shape)": a tensor X cannot be resized (assignment only; implied by the
+   second check), then the GENERATED tt_ind2sub (negative indices are shifted by prod(shape); np.unravel_index refuses what is
+   then outside [0, prod(shape))) *)
+Definition guard_linear_index (s : vec) (k : Z) : res unit :=
+  chk (negb (zprod s <=? k)) ;; match tt_ind2sub s [k] OrdF with Err => Err | Ok _ => Ok tt end.
 
 (* ktensor.mttkrp(U, n): the helper; R = U[1 or 0].shape[1] (IndexError on a 1-way tensor); the weight matrix W (rank x R) is
    multiplied element-wise by factor_matrices[i].T @ U[i] for every i <> n: rows of U[i] must equal shape[i]; the column
-   counts are only required to BROADCAST (a single column is stretched): C19-N09 *)
+   counts need only broadcast here, but the helper has compared them already (C19-N09 repaired) *)
 Fixpoint kw_chain (s : vec) (n : Z) (wc : Z) (l : list (Z * shp2)) : res unit :=
   match l with
   | [] => Ok tt
@@ -542,9 +558,9 @@ Definition guard_ttensor_ttm (s : vec) (ms : list shp2) (dims excl : option vec)
    have become dense: tensor.ttm performs the same comparison): the chain of tensor.ttm *)
 Definition guard_sptensor_ttm := guard_tensor_ttm.
 
-(* sptensor.mttkrp(U, n): the helper; R = U[1 or 0].shape[1]; for r < R: column r of every U[i], i <> n (IndexError when
-   U[i] has fewer than R columns; further columns are never looked at: C19-N09), then ttv with exclude_dims = n on vectors
-   of lengths rows(U[i]) (an empty vector in position n) *)
+(* sptensor.mttkrp(U, n): the helper (column counts compared: C19-N09 repaired); R = U[1 or 0].shape[1]; for r < R: column r
+   of every U[i], i <> n, then ttv with exclude_dims = n on vectors of lengths rows(U[i]) (an empty vector in position n).
+   With R = 0 the loop body never runs: the row counts are not looked at (C19-N20) *)
 Definition guard_sptensor_mttkrp (s : vec) (us : list shp2) (n : Z) : res unit :=
   let N := ndim s in let R := mttkrp_R us n in
   let ius := combine (np_arange 0 N) us in
@@ -554,16 +570,11 @@ Definition guard_sptensor_mttkrp (s : vec) (us : list shp2) (n : Z) : res unit :
   else chk (forallb (fun iu => (fst iu =? n) || (R <=? cols (snd iu))) ius) ;;
        guard_ttv_checks s (map (fun iu => if fst iu =? n then 0 else rows (snd iu)) ius) None (Some [n]).
 
-(* sptensor.extract(subs) with subs a rectangular p x k array: "(subs < 0) | (subs >= shape)" is evaluated with numpy
-   broadcasting of (p, k) against (N,): k = N, or a single column (compared with every mode), or a 1-way tensor (every column
-   compared with the one size); any other k raises.  Nothing after the range test rejects (C19-N17). *)
-Definition row_in_range_bcast (s row : vec) : bool :=
-  if zlen row =? ndim s then forallb (fun p => in_range (snd p) (fst p)) (combine row s)
-  else if zlen row =? 1 then forallb (fun d => in_range d (sz row 0)) s
-  else forallb (in_range (sz s 0)) row.
+(* sptensor.extract(subs) with subs a rectangular p x k array (p >= 1): "searchsubs.shape[1] != self.ndims" (C19-N17
+   repaired), then "(subs < 0) | (subs >= shape)" row by row.  Nothing after the range test rejects. *)
 Definition guard_sptensor_extract (s : vec) (subs : list vec) : res unit :=
   let k := zlen (hd [] subs) in
-  chk ((k =? ndim s) || (k =? 1) || (ndim s =? 1)) ;; chk (forallb (row_in_range_bcast s) subs).
+  chk (k =? ndim s) ;; chk (forallb (fun row => forallb (fun p => in_range (snd p) (fst p)) (combine row s)) subs).
 
 
 (* sptensor.from_aggregator(subs, vals, shape) with subs a rectangular p x k array and vals nvals x 1: tt_subscheck (no
@@ -580,18 +591,17 @@ Definition guard_from_aggregator (s : vec) (subs : list vec) (nvals : Z) : res u
        chk (nvals =? p).
 
 
-(* gcp_opt(data, rank, objective, optimizer, init): the initial guess first — a Kruskal tensor is compared with the shape of
-   the data and the rank; "random" draws (shape[n], rank) matrices (numpy refuses a negative size; with rank 0 the scaling by
-   data.norm() / M0.norm() divides by zero, and a Kruskal guess without components cannot be normalised); a LIST of matrices
-   is only turned into a Kruskal tensor (equal column counts) — neither rank nor shape are compared (C19-N19); any other
-   value is refused.  Then the optimizer's type.  A list guess meets the data in the first function evaluation, where numpy
-   broadcasts the two shapes. *)
+(* gcp_opt(data, rank, objective, optimizer, init): the initial guess first — a LIST of matrices is turned into a Kruskal
+   tensor (the constructor compares the column counts) and then treated like one (C19-N19 repaired); a Kruskal tensor is
+   compared with the shape of the data and the rank; "random" draws (shape[n], rank) matrices (numpy refuses a negative size;
+   with rank 0 the scaling by data.norm() / M0.norm() divides by zero, and a Kruskal guess without components cannot be
+   normalised); any other value is refused.  Then the optimizer's type. *)
 Definition guard_gcp_opt (s : vec) (rank : Z) (init : initk) (opt_ok : bool) : res unit :=
   match init with
-  | InitList ms => guard_ktensor_ctor ms None
+  | InitList ms => guard_ktensor_ctor ms None ;;
+                   chk (shape_eqb (map rows ms) s && (cols (shp2_d ms 0) =? rank)) ;; chk (0 <? rank)
   | InitK ks R => chk (shape_eqb ks s && (R =? rank)) ;; chk (0 <? rank)
   | InitRandom => chk (0 <? rank)
   | InitNvecs | InitBogus => Err
   end ;;
-  chk opt_ok ;;
-  match init with InitList ms => chk (np_broadcast_ok (map rows ms) s) | _ => Ok tt end.
+  chk opt_ok.
